@@ -233,6 +233,54 @@ def gen_sp_cases(rng, n, sizes, big=()):
     return cases
 
 
+def gen_generic(rng, N, K):
+    """tolerance stream: weights are generic binary64 values in [0.5, 1.5) (53 significant bits), so the sums the
+    implementation forms ARE rounded; every double is a dyadic rational, the model still runs exactly on
+    weight * 2^53 and the implementation may differ from it by rounding only"""
+    nbrs = [[rng.randrange(N) for _ in range(K)] for _ in range(N)]
+    w = [[int((0.5 + rng.random()) * (1 << 53)) for _ in range(N)] for _ in range(N)]
+    c = {"kind": "sp", "gen": "generic-doubles(tolerance)", "N": N, "nbrs": nbrs, "w": w, "scale": 53, "lm": [],
+         "tolerance": True}
+    return add_landmarks(rng, c)
+
+
+def evaluate_generic(ctx, exes, cases, stats, rel=1e-12):
+    """TOLERANCE stream (labelled as such in the evidence): observed geodesics vs the exact shortest paths of the
+    same binary64 weights, relative tolerance `rel` (N <= 64 additions of 53-bit numbers: rounding < 1e-14)"""
+    if not cases:
+        return 0
+    n_eval = 0
+    obs = observe_sp(ctx, exes, cases, trace=False)
+    blocks = run_model(ctx, exes.model, ["D " + " ".join(graph_tokens(c, True)) for c in cases])
+    for c, o, blk in zip(cases, obs, blocks):
+        model = parse_block(blk)
+        N, nl = c["N"], len(c["lm"])
+        for key, r in o.items():
+            if r.get("skipped"):
+                continue
+            if r["crash"] or r["x"]:
+                ctx.violation(strip(c), "the real routine aborts / hangs / throws on generic weights (build %s, threads "
+                                        "%s): %s" % (key[0], key[1], str(r["crash"] or r["x"])[:400]))
+                continue
+            for tag, rows, ref in (("full", N, model.get("full pq0")), ("land", nl, model.get("land pq0"))):
+                if not rows or not isinstance(ref, list):
+                    continue
+                mat, prob = parse_obs(r["tags"].get(tag), c["scale"], rows, N)
+                n_eval += 1
+                bad = prob
+                if mat is not None and not prob:
+                    for i in range(rows):
+                        for j in range(N):
+                            x, y = mat[i][j], ref[i][j]
+                            if (x is None) != (y is None) or (x is not None and abs(x - y) > rel * max(y, 1)):
+                                bad = bad or "entry (%d,%d): observed %s, exact shortest path %s (x 2^-53)" % (i, j, x, y)
+                stats["tolerance_matrices"] += 1
+                if mat is None or bad:
+                    ctx.violation(strip(c), "tolerance stream: %s matrix (build %s, threads %s) is not the shortest-path "
+                                            "matrix within %g: %s" % (tag, key[0], key[1], rel, bad))
+    return n_eval
+
+
 def enum_small_cases():
     """ALL neighbour-list graphs with (N,K) in {(2,1),(2,2),(3,1)} and ALL weightings of their edges from {0,1,2}
     (weights of non-edges are 1), landmarks = all vertices in decreasing order"""
@@ -1069,7 +1117,7 @@ def check_embedding(ctx, info, r, stats):
 # ----------------------------------------------------------------------------------------------- main
 def new_stats():
     return {"model_rows": 0, "traces": 0, "trace_agree": 0, "trace_disagree": 0, "trace_calls": 0,
-            "skipped_runs": 0, "big_rows_checked": 0, "old_f4_model_differs": 0, "iso": {}, "iso_exceptions": 0,
+            "skipped_runs": 0, "big_rows_checked": 0, "tolerance_matrices": 0, "old_f4_model_differs": 0, "iso": {}, "iso_exceptions": 0,
             "iso_disconnected": 0, "B_exact": 0, "B_tolerance": 0, "emb_checked": 0, "emb_degenerate": 0,
             "emb_oracle_bad": 0, "emb_worst_rel": 0.0}
 
@@ -1163,6 +1211,9 @@ def run(ctx):
         n += evaluate_sp(ctx, exes, sp_cases[i:i + 400], stats)
     n += evaluate_iso(ctx, exes, iso_cases, stats)
     n += evaluate_big(ctx, exes, big_cases, stats)
+    generic_cases = [gen_generic(rng, rng.choice([4, 8, 16, 32, 64]), rng.choice([1, 2, 3, 5]))
+                     for _ in range(20 if quick else 200)]
+    n += evaluate_generic(ctx, exes, generic_cases, stats)
     # search phase (CONVENTIONS 3.2): something is no longer shown and no failing input yet
     searched = 0
     if ctx.is_unshown() or (stats["trace_disagree"] and not ctx.has_violation()):
@@ -1186,7 +1237,7 @@ def run(ctx):
             n += evaluate_iso(ctx, exes, gen_iso_cases(rng, 60, 20, 40), stats)
     ctx.note("wall clock: coq %.0f s, extraction %.0f s, all builds done after %.0f s, evaluation %.0f s" % (
         t_coq, t_extract, t_build, time.time() - t0 - t_build))
-    allc = sp_cases + iso_cases + big_cases
+    allc = sp_cases + iso_cases + big_cases + generic_cases
     for c in allc:
         g = c.get("gen", c["kind"] + ":" + c.get("meth", ""))
         hist[g] = hist.get(g, 0) + 1
@@ -1196,7 +1247,7 @@ def run(ctx):
         size_hist[str(c["N"])] = size_hist.get(str(c["N"]), 0) + 1
     branches = {"tie_at_extract": 0, "neighbour_settled": 0, "relax_insert": 0, "relax_decrease_key_or_stale": 0,
                 "equal_no_relax": 0, "worse_no_relax": 0, "unreachable_entries": 0, "rows": 0}
-    for c in sp_cases:
+    for c in sp_cases + generic_cases:
         if c["N"] <= 64:
             branch_stats(c, branches)
     feat = {"with_landmarks": sum(1 for c in sp_cases if c["lm"]),
@@ -1212,7 +1263,8 @@ def run(ctx):
              "non-trivial = N >= 4 and some vertex has a two-edge continuation outside its own neighbour list "
              "(a geodesic needs >= 2 edges), Isomap cases N >= 6; distinct by hash of the whole input. Case counts "
              "are fixed by the tier.",
-        samples=[{k: (v if k not in ("w", "T") else v[:3]) for k, v in strip(c).items()}
+        samples=[{(k if k not in ("w", "T") or len(v) <= 4 else k + " (first 4 of %d rows)" % len(v)):
+                  (v if k not in ("w", "T") else v[:4]) for k, v in strip(c).items()}
                  for c in (sp_cases[:2] + sp_cases[12:14] + iso_cases[:2])],
         histogram={"generators": hist, "N": size_hist, "features": feat, "proof_case_splits_exercised": branches,
                    "stats": stats,
